@@ -60,7 +60,19 @@ func registerVF(P *Program) {
 		return SliceV{A: a}
 	})
 	r("OpaqueBytes", func(in *Interp, args []Value) Value {
-		s := in.ts.FreshSym(argStr(args[0]), StrSort)
+		name := argStr(args[0])
+		for i := 0; ; i++ {
+			n := name
+			if i > 0 {
+				n = fmt.Sprintf("%s#%d", name, i)
+			}
+			if _, taken := in.ts.syms[n]; !taken {
+				in.ts.big[n] = true
+				break
+			}
+		}
+		s := in.ts.FreshSym(name, StrSort)
+		in.addPC(in.ts.ILe(in.ts.Int(0), in.ts.SLen(s)))
 		return SliceV{Blob: in.strBlob(s)}
 	})
 	r("Choose", func(in *Interp, args []Value) Value {
